@@ -10,6 +10,14 @@ TRUST = ("Trusted: TLC, the four pyenv interpreters 3.7.16/3.8.18/3.9.18/3.10.13
          "stated in the evidence file.")
 
 CHECKS = {
+    "C14": dict(
+        technique="TLA+ MC_Nesting enumerates nesting shapes (entries referenced once / twice / not at all, two levels); shapes built "
+                  "as real nested code objects; TLC trace validation (Trace_Decode, P14.*) of __iter__/all_code_data() against "
+                  "the walk of co_consts the specification computes from CPython's reading; corpus and compiler templates",
+        text="For every nesting shape of the bounded model, every corpus code object and templates that make the compilers leave "
+             "unreferenced or doubly referenced code constants, TLC compares the multiset iteration yields with the constant "
+             "table's code objects and the count of all_code_data() with the recursive walk.",
+        ref="DESIGN.md 5 C14"),
     "C01": dict(
         technique="TLA+ reference decoder and encoder (Decode, Encode, Lines) with RoundTripModel checked exhaustively by TLC on "
                   "MC_Decode; model streams and corpus code objects round-tripped on the real library with a strict "
